@@ -1140,6 +1140,10 @@ func c20r5(p *Program, r *Report) {
 			return true
 		}
 		nfb++
+		if !emptyKnown(id) && c20DefaultFirst(p, ap, ag, id, listParam) {
+			r.OK(id, "approve starts from the built-in list and replaces it with the caller's list unless that is empty", "every read of the local is after the replacement or under len(list) == 0")
+			return true
+		}
 		r.Check(emptyKnown(id), id, "approve falls back to the built-in list only when the caller's list is empty", "under len(list) == 0", "the caller's allow-list is replaced by the built-in default although it is not empty (or unconditionally)")
 		return true
 	})
@@ -1487,4 +1491,106 @@ func factsAfterLoad(f Facts) bool {
 		}
 	}
 	return false
+}
+
+// c20DefaultFirst accepts the form `L := builtin; if len(param) != 0 { L = param }`: the use of the built-in list is
+// the whole right-hand side of an assignment to a local L, and at every read of L either L has since been replaced by
+// the caller's list or the caller's list is known to be empty (path-sensitive facts, one mark for the replacement).
+func c20DefaultFirst(p *Program, ap *FuncInfo, ag *Graph, use *ast.Ident, listParam types.Object) bool {
+	info := ag.Info
+	if listParam == nil {
+		return false
+	}
+	as, ok := p.Parent(use).(*ast.AssignStmt)
+	if !ok || len(as.Lhs) != len(as.Rhs) {
+		return false
+	}
+	var local types.Object
+	for i, rhs := range as.Rhs {
+		if ast.Unparen(rhs) == ast.Expr(use) {
+			if id, isId := as.Lhs[i].(*ast.Ident); isId {
+				if local = info.Defs[id]; local == nil {
+					local = info.Uses[id]
+				}
+			}
+		}
+	}
+	lv, isVar := local.(*types.Var)
+	if !isVar || lv.Parent() == lv.Pkg().Scope() || lv.IsField() {
+		return false
+	}
+	taken := false
+	ast.Inspect(ap.Decl.Body, func(x ast.Node) bool {
+		if u, isU := x.(*ast.UnaryExpr); isU && u.Op == token.AND {
+			if id, isId := ast.Unparen(u.X).(*ast.Ident); isId && info.Uses[id] == local {
+				taken = true
+			}
+		}
+		return true
+	})
+	if taken {
+		return false
+	}
+	ag.markNodes = map[ast.Node]string{}
+	defer func() { ag.markNodes = nil }()
+	lhsIdents := map[*ast.Ident]bool{}
+	ast.Inspect(ap.Decl.Body, func(x ast.Node) bool {
+		a, isA := x.(*ast.AssignStmt)
+		if !isA {
+			return true
+		}
+		for i, l := range a.Lhs {
+			id, isId := l.(*ast.Ident)
+			if !isId || (info.Uses[id] != local && info.Defs[id] != local) {
+				continue
+			}
+			lhsIdents[id] = true
+			if len(a.Lhs) == len(a.Rhs) && isIdentOf(info, a.Rhs[i], listParam) {
+				ag.markNodes[a] = "custom"
+			}
+		}
+		return true
+	})
+	pn := listParam.Name()
+	ps := ag.GuardFactsPSAbout(func(atom string) bool { return strings.HasPrefix(atom, "§") || mentions(atom, pn) })
+	emptyIn := func(f Facts) bool {
+		lenE := &ast.CallExpr{Fun: ast.NewIdent("len"), Args: []ast.Expr{ast.NewIdent(pn)}}
+		if v, known := f.Known(&ast.BinaryExpr{X: lenE, Op: token.EQL, Y: &ast.BasicLit{Kind: token.INT, Value: "0"}}); known && v {
+			return true
+		}
+		if v, known := f.Known(&ast.BinaryExpr{X: &ast.BasicLit{Kind: token.INT, Value: "0"}, Op: token.LSS, Y: lenE}); known && !v {
+			return true
+		}
+		if v, known := f.KnownStr(pn + " == nil"); known && v {
+			return true
+		}
+		return false
+	}
+	okAll, reads := true, 0
+	ast.Inspect(ap.Decl.Body, func(x ast.Node) bool {
+		id, isId := x.(*ast.Ident)
+		if !isId || info.Uses[id] != local || lhsIdents[id] {
+			return true
+		}
+		reads++
+		node, found := ag.cfgNodeOf(id)
+		if !found {
+			okAll = false
+			return true
+		}
+		ds, has := ps.Before(node)
+		if !has {
+			return true // unreachable
+		}
+		if len(ds) == 0 {
+			okAll = false
+		}
+		for _, f := range ds {
+			if !f.m["§custom"] && !emptyIn(f) {
+				okAll = false
+			}
+		}
+		return true
+	})
+	return okAll && reads > 0
 }
